@@ -1,3 +1,32 @@
-From Flodym Require Import Base.ND.
-Theorem placeholder : True. Proof. exact I. Qed.
-Print Assumptions placeholder.
+(* C11 — DataFrame import is faithful to labels under every supported layout.  Statements only.
+   PARTIAL: the theorems are about logical rows (one label per dimension and a value); how pandas
+   presents a layout (index / columns, names / letters / items, wide form, CSV text) is runtime
+   and tied to the row level by the correspondence on every layout. *)
+From Coq Require Import List Arith Bool.
+Import ListNotations.
+From Flodym Require Import Base.ND Np.Einsum Model.Dims Model.Array Model.DF Proofs.DFProofs.
+
+(* to_df: one row per entry, in row-major order, each under its true labels; sparse: exactly the non-zero ones *)
+Theorem C11_to_df_lists_every_entry_once_under_its_labels :
+  forall (R : Type) (rO : R) (is_zero : R -> bool) sparse (a : farr R),
+  to_rows R rO is_zero sparse a
+  = map (fun idx => mk_row R (labels_of (adims a) idx) (Some (get rO (dshape (adims a)) (avals a) idx)))
+        (filter (fun idx => negb (sparse && is_zero (get rO (dshape (adims a)) (avals a) idx))) (all_idx (dshape (adims a)))).
+Proof. exact to_rows_spec. Qed.
+Print Assumptions C11_to_df_lists_every_entry_once_under_its_labels.
+
+(* the round trip: importing the exported rows returns the identical array — for every rank, every
+   dimension lengths, all values; items unique within each dimension *)
+Theorem C11_roundtrip_long_layout :
+  forall (R : Type) (rO : R) (is_zero : R -> bool) (a : farr R),
+  items_unique (adims a) -> length (avals a) = size (dshape (adims a)) ->
+  import_rows R rO true 0 (adims a) false false false false (to_rows R rO is_zero false a) = Ok (avals a).
+Proof. exact roundtrip_long. Qed.
+Print Assumptions C11_roundtrip_long_layout.
+
+(* writing each position once gives the table: the placement step is position-exact *)
+Theorem C11_placement_writes_each_position_once :
+  forall (R : Type) sh (f : list nat -> R) (v : list R), length v = size sh ->
+  fold_left (fun acc idx => Index.upd R acc (ravel sh idx) (f idx)) (all_idx sh) v = tab sh f.
+Proof. exact fold_upd_all_idx. Qed.
+Print Assumptions C11_placement_writes_each_position_once.
